@@ -777,6 +777,9 @@ _bstr_int_plain = bstr_int
 
 def bstr_int(s):          # noqa: F811
     n = _bstr_int_plain(s)
+    v = z3.simplify(n.e)
+    if z3.is_int_value(v):
+        return v.as_long()        # constant text: a plain int (keeps real hashing / ordering semantics, e.g. iteration order of a set of ints)
     n.src = s             # canonical rendering when the field was generated canonical (no leading zeros, no '-0')
     return n
 
